@@ -230,18 +230,42 @@ def conv_flags(log):
     return [bool(e[1]) for e in log if e and e[0] == 'run']
 
 
+CALL_TIMEOUT_S = 20
+
+
+class CaseTimeout(BaseException):
+    """raised by the interval timer inside a call that does not terminate (BaseException: not swallowed by `except Exception`)"""
+
+
+def _on_alarm(signum, frame):
+    raise CaseTimeout()
+
+
 def invoke(thunk, result_kind):
-    """(outcome, stdout) with outcome = ('ok', canon result) | ('exc', type name, message)"""
+    """(outcome, stdout, exception) with outcome = ('ok', canon result) | ('exc', type name, message) | ('timeout', seconds).
+    Every call made by the harness runs under a timer: a call that does not terminate becomes an outcome, never a hang
+    (main thread: interval timer; worker threads are joined with a timeout by their schedule)."""
+    import signal, threading
     buf = io.StringIO()
-    with contextlib.redirect_stdout(buf):
-        try:
-            r = thunk()
-            out = ('ok', canon(r, result_kind))
-        except Exception as e:  # noqa
-            out = ('exc', type(e).__name__, str(e)[:200])
-            out_exc = e
-            return out, buf.getvalue(), out_exc
-    return out, buf.getvalue(), None
+    timed = threading.current_thread() is threading.main_thread()
+    if timed:
+        old = signal.signal(signal.SIGALRM, _on_alarm)
+        signal.setitimer(signal.ITIMER_REAL, CALL_TIMEOUT_S)
+    try:
+        with contextlib.redirect_stdout(buf):
+            try:
+                r = thunk()
+                out = ('ok', canon(r, result_kind))
+            except CaseTimeout:
+                return ('timeout', CALL_TIMEOUT_S), buf.getvalue(), None
+            except Exception as e:  # noqa
+                out = ('exc', type(e).__name__, str(e)[:200])
+                return out, buf.getvalue(), e
+        return out, buf.getvalue(), None
+    finally:
+        if timed:
+            signal.setitimer(signal.ITIMER_REAL, 0)
+            signal.signal(signal.SIGALRM, old)
 
 
 def ref_binding(pos, kw):
@@ -877,7 +901,9 @@ def gen_cases(run, R, bases, rule_bases):
                 chain_ix = [0, 1, 3][(fi + bi) % 3] if not strict else 0
                 add(Case(base, chain_ix, (fi + bi) % 5, bool(fi % 2), True, True, ['unspecified', 'enabled'][fi % 2], strict, fault_ix=fi))
     # --- natural failures x strict x options
-    for base in ('forelse', 'nosource', 'genfn', 'callobj_forelse', 'callobj_unhash_fail', 'bound_gen', 'callobj_gen'):
+    for base in ('forelse', 'nosource', 'genfn', 'callobj_forelse', 'callobj_unhash_fail', 'bound_gen', 'callobj_gen', 'nested_gen', 'mangled',
+                 'bound_forelse', 'bound_mangled', 'bound_fixed_forelse', 'classm_forelse', 'classm_inst_forelse', 'classm_fixed_whileelse',
+                 'staticm_whileelse', 'staticm_inst_whileelse', 'staticm_fixed_forelse'):
         for ur in (False, True):
             for strict in (False, True):
                 for chain_ix in (0, 3):
@@ -946,6 +972,11 @@ def _run_cases(run, R, cases):
         if c.base == 'nested_async' and conv_seen:
             # the hypothesis "a conversion that succeeds preserves the target's behaviour" (C01) is what fails here
             cls_t = CLS_NESTED_ASYNC
+        if obs['wrapped'][0] == 'timeout' or obs['again'][0] == 'timeout':
+            if obs['direct'][0] != 'timeout':
+                run.fail('wrapped call did not terminate within %d s (the direct call returns %s)' % (CALL_TIMEOUT_S, str(obs['direct'])[:80]),
+                         dict(cj, observed=_brief(obs)), None)
+            continue
         if strict_raise:
             stats['strict_reraise'] += 1
             if obs['wrapped'][0] != 'exc' or obs['runs'] != 0:
@@ -1156,7 +1187,7 @@ zoo.Built.base_logs_tag = _built_logs_tag
 
 # ------------------------------------------------------------------------------------------------ histories
 
-HIST_SINGLES = [('bound_falsy_bool', 0), ('classm_falsy', 1), ('builtin:decimal.ctx.abs', 0), ('fn', 0), ('fn', 1), ('fn', 3), ('fn', 6), ('lambda', 0), ('bound', 0), ('bound', 3), ('classm', 0), ('callobj', 0),
+HIST_SINGLES = [('bound_forelse', 0), ('classm_fixed_whileelse', 0), ('bound_falsy_bool', 0), ('classm_falsy', 1), ('builtin:decimal.ctx.abs', 0), ('fn', 0), ('fn', 1), ('fn', 3), ('fn', 6), ('lambda', 0), ('bound', 0), ('bound', 3), ('classm', 0), ('callobj', 0),
                 ('class_meta', 0), ('dnc', 0), ('fn_mod:malt.c13fake', 0), ('genfn', 0), ('forelse', 0), ('forelse', 1), ('nosource', 0),
                 ('callobj_unhash_fail', 0), ('lru', 0), ('execfn', 0), ('builtin:len', 0), ('class_user', 0), ('bound_testcase', 0),
                 ('wrapt_fn', 0), ('bound_sub_inherit:malt.c13fake', 0)]
@@ -1343,6 +1374,9 @@ def _run_histories(run, R, hists):
             cls_t = None
             if m:
                 cls_t = CLS_FOREIGN_SELF if m['foreign'] else (CLS_SHARED_OWNER if m['shared_disagree'] else None)
+            if ob['wrapped'][0] == 'timeout' and ob['direct'][0] != 'timeout':
+                run.fail('history: call %d did not terminate within %d s' % (i, CALL_TIMEOUT_S), info, None)
+                break
             same = ob['wrapped'] == ob['direct'] or (ob['wrapped'][0] == 'exc' and ob['direct'][0] == 'exc' and ob['wrapped'][1] == ob['direct'][1])
             if not same or ob['wrapped_log'] != ob['direct_log'] or ob['wrapped_stdout'] != ob['direct_stdout']:
                 run.fail('history: call %d differs from the direct call: %s vs %s' % (i, str(ob['wrapped'])[:100], str(ob['direct'])[:100]), info,
@@ -1464,10 +1498,14 @@ def _run_threads(run, R):
                         out['B_exc'] = repr(e)
                     finally:
                         b_done.set()
-                ta, tb_ = threading.Thread(target=thread_a), threading.Thread(target=thread_b)
+                ta, tb_ = threading.Thread(target=thread_a, daemon=True), threading.Thread(target=thread_b, daemon=True)
                 ta.start(); tb_.start(); ta.join(30); tb_.join(30)
                 if out.get('timeout') or ta.is_alive() or tb_.is_alive():
-                    raise common.InfraError('two-thread schedule timed out')
+                    b_done.set(); entered.set()
+                    run.case(('threads', region, bctx, tb), True)
+                    run.fail('threads: the schedule did not terminate within 30 s (A inside %s, B in context %s calling %s)' % (region, bctx, tb),
+                             {'threads': True, 'A_region': region, 'B_context': bctx, 'B_target': tb}, None)
+                    continue
                 # direct twins
                 ld = []
                 bd, fd, _, ad, kd = R.build(cB, ld)
